@@ -26,12 +26,12 @@ theorem find_collectRec (r : RegState) (id : Nat) (rs : List ((Nat × Nat) × Re
   · subst hk
     simp only [if_true]
     cases find? r.recs (id, a) with
-    | some rc => simp only; exact find_insert_eq _ _ _
+    | some rc => simp only; exact find_insertRec_eq _ _ _
     | none => rfl
   · simp only [hk, if_false]
     cases find? r.recs (id, a) with
     | none => rfl
-    | some rc => exact find_insert_ne _ _ _ _ (fun e => hk e.symm)
+    | some rc => exact find_insertRec_ne _ _ _ _ (fun e => hk e.symm)
 
 theorem find_foldl_collectRec (r : RegState) (id : Nat) : ∀ (l : List Nat) (acc : List ((Nat × Nat) × Rec)) (key : Nat × Nat),
     find? (l.foldl (collectRec r id) acc) key =
